@@ -145,8 +145,14 @@ func Scenario(c Cfg, pb int) *explore.Scenario {
 			vrt.Go(fmt.Sprintf("T%d", k), func() {
 				payload := Gen(k, s.Len)
 				cut := len(payload) / 2
+				if k == 0 {
+					cut = 0 // sender 0 passes a single contiguous slice, sender 1 a split vector
+				}
 				a, b := append([]byte{}, payload[:cut]...), append([]byte{}, payload[cut:]...)
 				vec := p2p.IOVec{a, b}
+				if k == 0 {
+					vec = p2p.IOVec{b}
+				}
 				err := st.Nodes[from].Tell(bg, 0, vec)
 				if !bytes.Equal(a, payload[:cut]) || !bytes.Equal(b, payload[cut:]) {
 					l.Mutated = append(l.Mutated, fmt.Sprintf("T%d", k))
